@@ -50,6 +50,10 @@ def cases(draw, maxfr=16, maxdim=20):
                 imtype=imtype)
 
 
+SCRIPT_EVERY = [1]        # the command-line route takes a second per case: every sixth case in the quick tier, every
+                          # 36th of the (six times larger) thorough tier
+
+
 def _h(case):
     import zlib
     return zlib.crc32(repr(sorted(case.items())).encode())
@@ -318,7 +322,7 @@ def check(case, rec=None):
     # or given by -T start -S step with --OmegaOverRide; reader thread or --singleThread; several -t at once
     scr = "none"
     if case.get("imtype", "f32") in ("f32", "u16", "i32", "f64", "f32frac") and \
-            _h(case) % (3 if case.get("imtype") == "f32frac" else 6) == 0:
+            _h(case) % ((3 if case.get("imtype") == "f32frac" else 6) * SCRIPT_EVERY[0]) == 0:
         import os, shutil, argparse, contextlib, fabio
         mode = ["Omega", "motor", "override"][(_h(case) // 6) % 3]
         one = bool((_h(case) // 18) % 2)
@@ -382,12 +386,13 @@ def check(case, rec=None):
 
 def run_shard(rec):
     quick = rec.tier == "quick"
+    SCRIPT_EVERY[0] = 1 if quick else 6
     hyp_run(rec, "frames", cases(16, 20), lambda c: check(c, rec), max_examples=150 if quick else 1500)
     many = st.builds(lambda seed, nfr, ns, nf: dict(kind="manyblobs", nfr=nfr, ns=ns, nf=nf, fill=0.25, seed=seed,
                                                     thpos="low", om0=0.0, step=0.25, empty=False, imtype="f32"),
                      st.integers(0, 2 ** 31 - 1), st.integers(1, 3), st.sampled_from([300, 364, 420]),
                      st.sampled_from([280, 366, 300]))
-    hyp_run(rec, "frames_manyblobs", many, lambda c: check(c, rec), max_examples=1 if quick else 6, shrink=False)
+    hyp_run(rec, "frames_manyblobs", many, lambda c: check(c, rec), max_examples=1 if quick else 2, shrink=False)
     hyp_run(rec, "frames_large", cases(40, 48), lambda c: check(c, rec), max_examples=15 if quick else 200)
 
 
